@@ -45,9 +45,7 @@ func c16Schemas() (ast.Schemas, *symir.Gen) {
 	g.RefPkgs = []string{"p", "q"}
 	g.Names = []string{"S", "A", "K"}
 	g.Scalars = []string{"string", "int64"}
-	if v.Tier() == 0 {
-		g.Scalars = []string{"int64"}
-	}
+	// string and numeric scalars: their constraints differ in kind (length vs bounds)
 	g.Nullable = true
 	g.Defaults = true
 	g.Constraints = true
